@@ -189,6 +189,17 @@ fn main() {
         }
         "killchild" => crashx::kill_child_main(&args[2]),
         "holder" => schedx::holder_main(&args[2]),
+        "walsize" => {
+            // stdin: one history per line ({"hist": …, "target": n}); prints END offset and blob length
+            use std::io::BufRead;
+            let mut cx = crashx::CrashX::new();
+            for l in std::io::stdin().lock().lines().flatten() {
+                let v: Value = serde_json::from_str(&l).expect("json");
+                let r = cx.walsize(&args[2], &v["hist"], v["target"].as_u64().unwrap() as usize);
+                println!("{} {:?}", v["tag"], r);
+            }
+            0
+        }
         "replay" => {
             let data = std::fs::read(&args[2]).expect("read replay file");
             let v: Value = serde_json::from_slice(&data).expect("replay json");
